@@ -21,10 +21,11 @@ int c04_mutex_init(pthread_mutex_t *m, const pthread_mutexattr_t *a) {
 }
 int c04_mutex_lock(pthread_mutex_t *m) {
   VASSERT(m == c04_mx_addr && c04_mx_inited == 1, "sim: lock called on the initialised global mutex");
+  int w = VMA_HB_LOOKUP(&c04_mx_owner); (void) w;
   VATOMIC_BEGIN();
   VASSUME(c04_mx_owner == 0);
   c04_mx_owner = c04_tid + 1;
-  VMA_HB_OP(&c04_mx_owner, 2, __ATOMIC_ACQUIRE);
+  VMA_HB_OP(w, 2, __ATOMIC_ACQUIRE);
 #ifdef C04_SEQ
   c04_mx_locks++;
 #endif
@@ -36,9 +37,10 @@ int c04_mutex_trylock(pthread_mutex_t *m) { (void) m; VASSERT(0, "sim: trylock i
 int c04_mutex_unlock(pthread_mutex_t *m) {
   VASSERT(m == c04_mx_addr && c04_mx_inited == 1, "sim: unlock called on the initialised global mutex");
   c04_unlock_hook();
+  int w = VMA_HB_LOOKUP(&c04_mx_owner); (void) w;
   VATOMIC_BEGIN();
   VASSERT(c04_mx_owner == c04_tid + 1, "sim: unlock by the owner");
-  VMA_HB_OP(&c04_mx_owner, 2, __ATOMIC_RELEASE);
+  VMA_HB_OP(w, 2, __ATOMIC_RELEASE);
   c04_mx_owner = 0;
 #ifdef C04_SEQ
   c04_mx_unlocks++;
